@@ -30,7 +30,7 @@ func (c01) Meta() fw.Meta {
 			"raw slot state is read through the live handle (GetAllRawUnsortedPoints) and cross-checked against the harness' own parse of the file bytes at every sync/reopen",
 			"layouts: 1-4 archives, steps 1..3600*60, rings of 1..1500 slots (thorough: a few files > 4 MiB)",
 		},
-		Obligations: []string{"stale_lap_nan_reads", "ring_end_crossing_reads", "page_straddle_slot_reads", "whole_ring_reads", "ring1", "ring2", "negative_distance_reads", "reopen_then_read", "jump_longer_than_retention", "nan_payload_roundtrip", "distance_beyond_31_bits_reads", "file_over_1024_pages", "newer_lap_nan_reads", "clock_stepped_back", "reads_after_waiting_for_writer", "coarser_archives_checked_after_write"},
+		Obligations: []string{"stale_lap_nan_reads", "ring_end_crossing_reads", "page_straddle_slot_reads", "whole_ring_reads", "ring1", "ring2", "negative_distance_reads", "reopen_then_read", "jump_longer_than_retention", "nan_payload_roundtrip", "distance_beyond_31_bits_reads", "file_over_1024_pages", "newer_lap_nan_reads", "clock_stepped_back", "reads_after_waiting_for_writer", "coarser_archives_checked_after_write", "batches_fanned_out_to_a_second_file_first"},
 	}
 }
 
@@ -58,6 +58,8 @@ type session struct {
 	now  int64
 	raw  model.Raw // physical state after the last operation
 	offs []int64
+	// fanout, when set, receives every batch first (same slice object)
+	fanout *wt.Whisper
 }
 
 func newSession(c *fw.Ctx, l model.Layout, now int64, name string) (*session, error) {
@@ -84,7 +86,14 @@ func (s *session) apply(op Op) error {
 	case "single":
 		return s.db.UpdatePointForArchive(op.Arch, wt.Timestamp(op.Pt.T), wt.Value(math.Float64frombits(op.Pt.Bits)), u32(s.now))
 	case "batch":
-		return s.db.UpdatePointsForArchive(toPoints(op.Pts), op.Arch, u32(s.now))
+		pts := toPoints(op.Pts)
+		if s.fanout != nil && len(pts) > 0 {
+			// the caller's slice is first written to the coarsest archive of another file of the same layout (one batch
+			// fanned out to two files), then - the very same slice - to this one
+			s.fanout.UpdatePointsForArchive(pts, len(s.l.Archs)-1, u32(s.now))
+			s.c.Count("batches_fanned_out_to_a_second_file_first", 1)
+		}
+		return s.db.UpdatePointsForArchive(pts, op.Arch, u32(s.now))
 	}
 	return nil
 }
@@ -132,6 +141,12 @@ func (c01) Run(c *fw.Ctx) {
 		return
 	}
 	defer s.close()
+	if c.Index%3 == 2 && !big && len(l.Archs) >= 2 {
+		if fo, err := createFile(filepath.Join(c.TmpDir(), "fanout.wsp"), l); err == nil {
+			s.fanout = fo
+			defer fo.Close()
+		}
+	}
 
 	nops := 12 + r.Intn(39)
 	if big {
